@@ -9,7 +9,8 @@
     definition, the type [sbody] is wider).  Definitions only; proofs in Proofs/SourceEmission.v. *)
 From Coq Require Import List NArith String Bool.
 From V Require Import Base.Util Base.Strings Base.Result Model.Registry Model.Settings Model.TypePath
-  Model.Generate Model.Program Model.ProgramSkel Checkers.Parse Checkers.Sem.
+  Model.Generate Model.Emit Model.Equal Model.Program Model.ProgramSkel Model.ProgramExamples
+  Checkers.Parse Checkers.Sem.
 Import ListNotations.
 Open Scope string_scope. Open Scope list_scope.
 
@@ -43,3 +44,60 @@ Definition expected_of_settings (defs : list sdef) (s : settings) (d : sdef) : p
                 (match s_compact s with Some t => segs_lead_of t | None => ([], false) end)
                 (match s_bits s with Some t => segs_lead_of t | None => ([], false) end)
                 bits_order_pty (s_codec s) d.
+
+(** the MODEL's output read back as the checker [prop_source_roundtrip] reads the observed one:
+    generate, emit the module, parse the tokens with Checkers/Parse.v, look the item up by path *)
+Definition model_item_at (r : registry) (s : settings) (p : list string) : option pitem :=
+  match generate r s (types_equal r) with
+  | Ok m =>
+      match emit_module s m with
+      | Ok toks => match parse_module toks with Some pm => lookup_item pm p | None => None end
+      | _ => None
+      end
+  | _ => None
+  end.
+
+(** ** ex8: a struct with unused (non-skipped) parameters - the marker field:
+    [a::Ph<T, U, V> { x: Vec<T>, #[codec(compact)] n: u32 }] at [(u16, bool, u8)] and [(bool, u8, u16)] *)
+Open Scope N_scope.
+Definition ex8_defs : list sdef :=
+  [mk_sdef ["a"; "Ph"] [("T", false); ("U", false); ("V", false)]
+     (SBStruct [mk_sfield (Some "x") (SVec (SParam 0)) false true;
+                mk_sfield (Some "n") (SPrimT PU32) true true])].
+Definition ex8_sd : sdef := nth 0 ex8_defs pe_default.
+Definition ex8_ph (t u v x : N) : ty :=
+  mk_ty ["a"; "Ph"] [mk_tparam "T" (Some t); mk_tparam "U" (Some u); mk_tparam "V" (Some v)]
+        (TDComposite [pe_fld "x" x "Vec<T>"; pe_fld "n" 5 "u32"]) [].
+Definition ex8_reg : registry :=
+  [(0, ex8_ph 1 2 3 4); (1, pe_prim PU16); (2, pe_prim PBool); (3, pe_prim PU8); (4, pe_seq 1);
+   (5, mk_ty [] [] (TDCompact 6) []); (6, pe_prim PU32); (7, ex8_ph 2 3 1 8); (8, pe_seq 2)].
+Definition ex8_labels : list (option src) :=
+  [Some (SApp 0 [SPrimT PU16; SPrimT PBool; SPrimT PU8]); Some (SPrimT PU16); Some (SPrimT PBool); Some (SPrimT PU8);
+   Some (SVec (SPrimT PU16)); Some (SCompactT (SPrimT PU32)); Some (SPrimT PU32);
+   Some (SApp 0 [SPrimT PBool; SPrimT PU8; SPrimT PU16]); Some (SVec (SPrimT PBool))].
+Definition ex8_s : settings :=
+  mk_settings "root" false dreg_empty [] None None (Some [":"; ":"; "codec"; ":"; ":"; "Compact"]) true AStd.
+Definition ex8_otp : bool -> tpath := order_tp_of ex8_s.
+
+(** ** ex9: an enum with an unused parameter - the [__Ignore] variant; tuple / named / unit variants,
+    an explicit [Compact<u32>] field, a boxed field:
+    [a::En<T, U> { A(T, Box<Vec<T>>) = 0, B { n: Compact<u32> } = 1, C = 5 }] at [(u16, bool)] and [(bool, u16)] *)
+Definition ex9_defs : list sdef :=
+  [mk_sdef ["a"; "En"] [("T", false); ("U", false)]
+     (SBEnum [("A", 0, [mk_sfield None (SParam 0) false true;
+                         mk_sfield None (SBox (SVec (SParam 0))) false true]);
+              ("B", 1, [mk_sfield (Some "n") (SCompactT (SPrimT PU32)) false true]);
+              ("C", 5, [])])].
+Definition ex9_sd : sdef := nth 0 ex9_defs pe_default.
+Definition ex9_en (t u v : N) : ty :=
+  mk_ty ["a"; "En"] [mk_tparam "T" (Some t); mk_tparam "U" (Some u)]
+        (TDVariant [mk_variant "A" [pe_ufld t "T"; pe_ufld v "Box<Vec<T>>"] 0 [];
+                    mk_variant "B" [pe_fld "n" 3 "Compact<u32>"] 1 [];
+                    mk_variant "C" [] 5 []]) [].
+Definition ex9_reg : registry :=
+  [(0, ex9_en 1 2 5); (1, pe_prim PU16); (2, pe_prim PBool); (3, mk_ty [] [] (TDCompact 4) []); (4, pe_prim PU32);
+   (5, pe_seq 1); (6, ex9_en 2 1 7); (7, pe_seq 2)].
+Definition ex9_labels : list (option src) :=
+  [Some (SApp 0 [SPrimT PU16; SPrimT PBool]); Some (SPrimT PU16); Some (SPrimT PBool);
+   Some (SCompactT (SPrimT PU32)); Some (SPrimT PU32); Some (SVec (SPrimT PU16));
+   Some (SApp 0 [SPrimT PBool; SPrimT PU16]); Some (SVec (SPrimT PBool))].
